@@ -38,4 +38,64 @@ CHECKS = {
         "text": "TLC explores every history of loading_at / pressure_at / spreading_pressure_at (branch x interpolation kind x fill x query-point class) and conversions on the implementation-shaped cache model and checks that the outcome class always equals the fresh-object outcome and that no cached interpolator outlives its data; the same histories (TLC-simulated behaviours, ordered pairs, pairs with a conversion in between) are executed on the real object: outcome class and value must equal those of a freshly built equal isotherm and the specification's table, and the observable state (id, labels, data, metadata, adsorbate/material properties) must not move.",
         "note": "Trusted: projection of the observable state (harness/iso_common.snapshot + iso_id); fresh object = constructor(to_dict(), data copy). Histories longer than the TLC-simulated depth 10 are covered by the model only (the cache state space is finite and explored completely).",
     },
+    "C05": {
+        "level": "model_checking",
+        "technique": "TLA+ content model with fixed-point numbers (spec/Identity.tla) explored by TLC over edit / reroute / read histories (IdentityMC); TLC enumerates the scenario table (base contents x minimal mutations x construction routes) and judges id-equality <=> content-equality on all pairs of objects materialised on the real classes (IdentityOracle), incl. other interpreter processes with another PYTHONHASHSEED and reads in between",
+        "text": "Every enumerated content is built on the real classes from the spec's own record by every applicable route (lists, tuples, arrays, DataFrames with default/shifted/string/reversed index, int or float literals, branch as ints/bools/column, from_isotherm, JSON parse, dict order, adsorbate spelling, another process), its iso_id is recorded before and after read-only calls, and TLC decides for every pair whether equality of identifiers coincides with equality of content, naming the differing field or route pair.",
+        "note": "Trusted: decimal rendering of spec numbers (no number on a rounding tie, checked by InvWellFormed); md5 collisions ignored; row-order-only differences not judged (the property does not say whether point order is content); codec fidelity of the JSON route belongs to C06.",
+    },
+    "C06": {
+        "level": "exploration",
+        "technique": "TLA+ codec specification (spec/Codec.tla: value/key classes, per-format domains, Judge) with a design-level exhaustive TLC run of the abstract document store (CodecMC, 127 241 states); TLC enumerates the scenario table (full products of the interacting dimensions + a TLC-verified strength-2 orthogonal array over 14 dimensions); each row is materialised on the real JSON exporter/importer and TLC (CodecOracle Judge) decides every recorded round trip clause by clause",
+        "text": "Every enumerated row: build, to_json (string and file), from_json, exact clauses (identifier, metadata keys/values/types, unit labels, material properties, every data cell and branch mark, model name/parameters/ranges/rmse/predictions, document fixpoint, file document = string document).",
+        "note": "Trusted: the projection in harness/codec_common (reads the isotherm's attributes, not to_dict), three representatives per value class (data independence probed, not proved), CommunityModules Json. Coverage is the enumerated table, not all inputs.",
+    },
+    "C07": {
+        "level": "exploration",
+        "technique": "same TLA+ codec specification as C06 (spec/Codec.tla, CodecMC, CodecOracle) with the per-format value domains of CSV (three separators), Excel and AIF written from the property's quantifier; TLC-enumerated scenario rows materialised on the real exporters/importers; TLC judges preserved / refused-with-pyGAPS-error / changed per row; an Impl transcription of cast_string predicts which out-of-domain classes are silently retyped",
+        "text": "By-value clauses per row (8 decimals, branch assignment and order, labels, material with properties, model name/parameters/ranges; the identifier is obliged when content is equal); outside the domain the verdict must be preserved-or-refused-with-a-pyGAPS-error, never changed. 11 known findings (format design: text sniffing, prefixes, AIF loops, xlwt containers) are matched by structured signature.",
+        "note": "Trusted: projection, representatives per class, domain reading (None, NaN/inf, padded text, '' in Excel, non-ASCII AIF keys are judged 'preserved or refused'; Excel/CSV returning float for int metadata is accepted as the same value).",
+    },
+    "C10": {
+        "level": "exploration",
+        "technique": "TLA+ specification of the 16 model equations over exact rationals (spec/Models.tla) checked by TLC on the parameter x pressure grid (ModelsMC, 1 460 states: defining relation, zero, bounds, strict monotonicity, Henry factorisation); the TLC-derived table is replayed on loading()/pressure() with scalar/0-d/1-d arguments; a TLC batch oracle (ModelsOracle, DecFloat) judges observations for general parameter vectors clause by clause; ModelIsotherm.loading_at/pressure_at compared with unit monomials from UnitsOracle",
+        "text": "Every row of an exact table of the model equations, and ~400 general parameter vectors x 5-17 arguments x 3 argument forms, are executed on the real models and decided by the specification (1e-9 closed forms, 1e-6 root-based, 1e-2 Virial); the ModelIsotherm wrapper is checked on 4 models x 2 native unit systems x pressure/loading/material representations.",
+        "note": "Trusted: the transcription of each formula in Models.tla; DecFloat carries 2e-7 per operation (in-spec tolerances 1e-6; 1e-9 only on the exact table); validity range of pressure-explicit models = prefix on which the library's closed-form pressure(n) is increasing; unit factors rest on C01. Four known findings (degenerate quadratic inverses, Virial/VST/TSLangmuir numerical inverses reporting success with wrong roots).",
+    },
+    "C11": {
+        "level": "exploration",
+        "technique": "symbolic integrals rat + sum c*ln(arg) in spec/Spreading.tla (11 models and the point-isotherm interpolant), proved equal to the integral of L/p by TLC through the exact derivative identity and zero limit (SpreadingMC, 4 041 states), evaluated against spreading_pressure()/spreading_pressure_at(); TLC-evaluated Simpson sums over observed loadings on geometric grids (SpreadingOracle, DecFloat) decide additivity/integral identity, monotonicity, zero limit, derivative; point isotherms segment by segment with logarithms of the inputs passed as observations",
+        "text": "Model spreading pressures are compared with the specification's closed forms and with in-spec quadrature of the library's own loading; point-isotherm spreading pressures with the per-segment closed form below, inside and at the edge of the range and in foreign pressure units/modes.",
+        "note": "Trusted: hand-differentiated drat/darg fields (a wrong one fails the MC run); in-spec tolerances Simpson 2e-5 (+1.5e-6 absolute for the four quad-based models), derivative 5e-3, zero limit 2e-2 at p_top*2^-40; DR/DA only through Simpson sums. Known finding: TemkinApprox constant offset.",
+    },
+    "C12": {
+        "level": "model_checking",
+        "technique": "TLA+ model of best-of-list and branch selection checked exhaustively by TLC (spec/FitSelectMC, 617 568 states); TLC step oracle (FitSelectOracle) judging replays on the real guess()/from_pointisotherm/model_iso with the model classes' fit replaced by a scripting stub at run time; TLC trace validation (FitErrOracle, DecFloat) of fit observations on a TLC-enumerated grid (FitGrid)",
+        "text": "TLC proves that the implementation-shaped selection (errors.index(min(errors)), row filters) stays inside what the property allows for every outcome pattern of <=4 candidates x every branch layout of <=5 points x branch x route, and every pattern/layout is replayed on the real code; the numeric clauses (rmse identity 1e-4, reproduction 1e-5, parameters inside bounds, generated points on the model 1e-6 with equal labels/metadata, refit and unit-change curves 1e-5) are evaluated by TLC on observations.",
+        "note": "Trusted: DecFloat (2e-7); residuals recomputed with the library's own loading/pressure; unit factors from spec/Units (C01); NaN rmse accepted under either reading; incomplete param_bounds/param_guess dictionaries (KeyError) noted, not judged; BET/DR/DA excluded from pressure-unit changes. Known finding: JensenSeaton in Pa.",
+    },
+    "C13": {
+        "level": "exploration",
+        "technique": "rational closed forms (Henry and equal-capacity Langmuir mixtures) in spec/Iast.tla checked by TLC against the IAST equations on the whole grid (IastMC, up to 22 465 states) and replayed into iast_point / iast_point_fraction / reverse_iast / iast_binary_svp / iast_binary_vle; TLC trace validation (IastTrace/IastOracle, DecFloat) of observations for 8 IAST-capable models and point isotherms",
+        "text": "2-4 component mixtures in every order, forward and reverse, compared at 1e-9 with the rationals TLC computes; seeded mixtures judged on fractions, equal spreading pressure, ideal mixing, permutation invariance and forward/reverse inversion at 1e-5 in the spec; helpers compared bit-for-bit with the point calculation.",
+        "note": "Trusted: the input isotherms' spreading_pressure_at/loading_at as observations (C10/C11); BET excluded (pole); calls that raise are not judged (property conditional on 'returns'); a run with fewer than 20 judged points is treated as vacuous (exit 2). Known finding: TemkinApprox zero root in reverse_iast.",
+    },
+    "C14": {
+        "level": "model_checking",
+        "technique": "TLA+ window/limit selection logic (spec/Selection.tla: searchsorted windows, >=3-point rule, Rouquerol window, Langmuir default window; Spec = allowed windows, Impl = transcription) model-checked by TLC (SelectionMC) and replayed row by row into the *_raw functions and isotherm entry points; exact recovery tables in rationals (spec/Linearised.tla, LinearisedMC/Oracle) for BET, Langmuir, t-plot, alpha-s, DR/DA",
+        "text": "For all increasing grids of <=7 points over tenths and all limit pairs the window returned by the real code must be one the specification allows (boundary-equal points unconstrained, either reading of the Rouquerol end accepted), refusal iff fewer than three points; analyses applied to data generated exactly from their governing equation must return the generating quantities computed by TLC in exact arithmetic (1e-6; DA exponent search 1e-3).",
+        "note": "Trusted: thickness curve / reference isotherm / DR-DA model classes of the library as inputs of the generated data; Rat arithmetic on small grids.",
+    },
+    "C16": {
+        "level": "exploration",
+        "technique": "rational recurrences of the three classical mesopore methods in spec/Meso.tla computed by TLC (MesoOracle) with table-lookup thickness/Kelvin callables on all grids of <=6 points and replayed into psd_mesoporous and the three raw functions; DecFloat relational clauses for the built-in Kelvin models (geometry ratios, r*ln p constant, widths increasing, conservation, cumulative end point, single-step single peak)",
+        "text": "Pore widths 2(r_K + t), zero-thickness pore volumes = successive changes of adsorbed liquid volume, distribution x width increments = volumes and the cumulative end point are compared with exact rationals; built-in Kelvin/thickness models are judged through relational clauses on observations.",
+        "note": "Trusted: Rat arithmetic; caller-supplied callables as the model of thickness/Kelvin functions; ln p passed as an input observation.",
+    },
+    "C20": {
+        "level": "model_checking",
+        "technique": "TLA+ registry and fallback specifications model-checked by TLC (spec/RegistryMC: shipped prefix + any history of store=True user adsorbates and lookups, 16 937 states; BackendMC: property-method fallback machine with its hidden CoolProp state); TLC evaluates the REAL data (ADSORBATE_LIST, adsorbates.json, independent sqlite read of default.db) and judges recorded traces of Adsorbate.find / isotherm.adsorbate / property calls (RegistryOracle, BackendOracle, DecFloat consistency clauses)",
+        "text": "Per source every case-folded string has exactly one owner, names are among aliases, sources agree; every lookup for all 817 strings x 4 case variants through find and the three isotherm classes is validated against FindSpec; store histories are executed on the real registry and validated step by step; 14 property methods x backend usable/unknown/missing x user property all/none/partial x calculate x temperature class x 8 units are judged for outcome class and value; 81 backend-linked adsorbates x 7-31 temperatures against the consistency clauses.",
+        "note": "Trusted: Python str.lower for case folding; CoolProp PropsSI as the independent decider of whether the backend can deliver and as value reference; SI pressure-unit constants in the spec; temperatures below the triple point are outside the quantifier.",
+    },
 }
